@@ -4,7 +4,7 @@ pub(crate) mod kani_verif {
     use super::*;
     use crate::kani_support::*;
 
-    // @h props=C12,C07,C02 tier=quick kind=proved funcs=coef;coef_helper contract="coef(S,i,w) == RFC 8554 3.1.3 formula for every byte string of 34 bytes, every digit index and w in {1,2,4,8} (loop-free, complete); coef_helper returns the same (index, shift, mask)"
+    // @h props=C12,C07,C02! tier=quick kind=proved funcs=coef;coef_helper contract="coef(S,i,w) == RFC 8554 3.1.3 formula for every byte string of 34 bytes, every digit index and w in {1,2,4,8} (loop-free, complete); coef_helper returns the same (index, shift, mask)"
     #[kani::proof]
     fn c12_coef_all() {
         let s: [u8; 34] = kani::any();
